@@ -1,0 +1,80 @@
+//go:build verif
+
+package participle
+
+// Contracts for the deductive checker kept in /verif (see /verif/DESIGN.md).
+// This file contains comments only; it is compiled in only with the build tag "verif"
+// and adds nothing to the package.
+
+// ---------------------------------------------------------------------------------------------
+// context.go
+// ---------------------------------------------------------------------------------------------
+
+// pcInv: the embedded PeekingLexer satisfies its representation invariant (lexer/contracts_verif.go).
+//@ pred pcInv(c *parseContext) = plInv(&c.PeekingLexer)
+// sameStream: two contexts look at the same token stream and elision set.
+//@ pred sameStream(a *parseContext, b *parseContext) = a.tokens == b.tokens && a.elide == b.elide
+// applyPrefix: the deferred-capture list of c now extends the list it had in the old state.
+//@ pred applyKept(c *parseContext, n int) = len(c.apply) >= n
+
+//@ func newParseContext [C13 C15]
+//@   requires lex != nil
+//@   ensures result.PeekingLexer == *lex && result.lookahead == lookahead && result.caseInsensitive == caseInsensitive
+//@   ensures result.apply == nil && result.deepestError == nil && result.deepestErrorDepth == 0 && result.depth == 0 && result.trace == nil && result.allowTrailing == false
+
+//@ func (*parseContext).Branch [C02 C01 C13]
+//@   fresh result
+//@   ensures result != nil && fresh(result) && result.PeekingLexer == p.PeekingLexer && result.apply == nil && len(result.apply) == 0
+//@   ensures result.lookahead == p.lookahead && result.deepestErrorDepth == p.deepestErrorDepth && result.deepestError == p.deepestError
+//@   ensures result.caseInsensitive == p.caseInsensitive && result.allowTrailing == p.allowTrailing && result.trace == p.trace && result.depth == p.depth
+
+//@ func (*parseContext).Defer [C02 C01]
+//@   modifies p.apply
+//@   ensures len(p.apply) == len(old(p.apply)) + 1 && forall(k, 0, len(old(p.apply)), p.apply[k] == old(p.apply[k]))
+//@   ensures p.apply[len(p.apply)-1] != nil && fresh(p.apply[len(p.apply)-1])
+//@   ensures p.apply[len(p.apply)-1].tokens == tokens && p.apply[len(p.apply)-1].strct == strct && p.apply[len(p.apply)-1].field == field && p.apply[len(p.apply)-1].fieldValue == fieldValue
+
+//@ func (*parseContext).Accept [C02 C01 C13]
+//@   requires branch != nil && p != branch
+//@   modifies p.apply, p.PeekingLexer, p.deepestError, p.deepestErrorDepth
+//@   ensures len(p.apply) == len(old(p.apply)) + len(branch.apply)
+//@   ensures forall(k, 0, len(old(p.apply)), p.apply[k] == old(p.apply[k]))
+//@   ensures forall(k, 0, len(branch.apply), p.apply[len(old(p.apply)) + k] == branch.apply[k])
+//@   ensures p.PeekingLexer == branch.PeekingLexer
+//@   ensures p.deepestErrorDepth == max(old(p.deepestErrorDepth), branch.deepestErrorDepth)
+//@   ensures branch.apply == old(branch.apply) && branch.PeekingLexer == old(branch.PeekingLexer)
+
+//@ func (*parseContext).MaybeUpdateError [C06 C13]
+//@   modifies p.deepestError, p.deepestErrorDepth
+//@   ensures p.deepestErrorDepth == max(old(p.deepestErrorDepth), p.cursor)
+//@   ensures p.cursor >= old(p.deepestErrorDepth) ==> p.deepestError == err
+//@   ensures p.cursor < old(p.deepestErrorDepth) ==> p.deepestError == old(p.deepestError)
+
+//@ func (*parseContext).DeepestError [C06]
+//@   pure
+//@   ensures p.cursor >= p.deepestErrorDepth ==> result == err
+//@   ensures p.cursor < p.deepestErrorDepth && p.deepestError != nil ==> result == p.deepestError
+//@   ensures p.cursor < p.deepestErrorDepth && p.deepestError == nil ==> result == err
+
+//@ func (*parseContext).hasInfiniteLookahead [C13]
+//@   pure
+//@   ensures result == (p.lookahead < 0)
+
+//@ func maxInt [C13]
+//@   pure
+//@   ensures result == max(a, b)
+
+// Stop: the exact commit threshold of the property ("abandoned only if it consumed no more than the lookahead"),
+// checked with machine-integer overflow obligations on the threshold arithmetic.
+//@ func (*parseContext).Stop [C13 C01 C02]
+//@   check-overflow
+//@   requires branch != nil && p != branch
+//@   requires 0 <= p.cursor && p.cursor <= 9223372036854775807 && 0 <= branch.cursor && branch.cursor <= 9223372036854775807
+//@   requires -9223372036854775808 <= p.lookahead && p.lookahead <= 9223372036854775807
+//@   modifies p.apply, p.PeekingLexer, p.deepestError, p.deepestErrorDepth
+//@   ensures @threshold result == (p.lookahead >= 0 && branch.cursor - old(p.cursor) > p.lookahead)
+//@   ensures result ==> p.PeekingLexer == branch.PeekingLexer && len(p.apply) == len(old(p.apply)) + len(branch.apply)
+//@   ensures result ==> forall(k, 0, len(old(p.apply)), p.apply[k] == old(p.apply[k])) && forall(k, 0, len(branch.apply), p.apply[len(old(p.apply)) + k] == branch.apply[k])
+//@   ensures !result ==> p.PeekingLexer == old(p.PeekingLexer) && p.apply == old(p.apply)
+//@   ensures branch.apply == old(branch.apply) && branch.PeekingLexer == old(branch.PeekingLexer)
+//@   ensures p.deepestErrorDepth >= old(p.deepestErrorDepth)
